@@ -66,8 +66,12 @@ def _inline_one(caller, bi, callee, by_path=None):
     blocks = caller["blocks"]
     t = blocks[bi]["term"]
     subst = {}
-    if by_path is not None and callee.get("generics") and len(callee["generics"]) == len(t.get("targs") or []):
-        subst = {g: a for g, a in zip(callee["generics"], t["targs"]) if g != a}
+    if by_path is not None and callee.get("generics"):
+        # the resolved instance's own type arguments when the call was resolved to this very function (a trait call resolved to an impl method: the impl's parameters),
+        # else the call's
+        ta = t.get("res_targs") if (t.get("res") == callee.get("path") and t.get("res_targs") is not None) else t.get("targs")
+        if len(callee["generics"]) == len(ta or []):
+            subst = {g: a for g, a in zip(callee["generics"], ta) if g != a}
     off_l = len(caller["locals"])
     off_b = len(blocks)
     for lc in callee["locals"]:
